@@ -748,3 +748,37 @@ def rule_K5(run: Run, prog: Program) -> int:
             else:
                 run.add("E6.K5", fn.short, stmt, UNDECIDED, "several masked writes that are not syntactic complements", loc)
     return n
+
+
+# ------------------------------------------------------------------------------------------------ K6
+def rule_K6(run: Run, prog: Program) -> int:
+    run.rule(
+        "E6.K6",
+        "a whole-array fast path `if <reduction>(per-element condition): return <parameter unchanged>` must quantify with all(): with "
+        "any() a collection in which only SOME elements need no work is returned unprocessed, so collections and single objects disagree",
+    )
+    n = 0
+    for fn in prog.package_functions():
+        params = set(fn.param_names())
+        if fn.cls is not None and not fn.is_staticmethod and fn.params():
+            params.discard(fn.params()[0].arg)
+        for node in walk_no_nested(fn.node):
+            if not (isinstance(node, ast.If) and len(node.body) == 1 and isinstance(node.body[0], ast.Return)
+                    and isinstance(node.body[0].value, ast.Name) and node.body[0].value.id in params):
+                continue
+            t = node.test
+            if not isinstance(t, ast.Call):
+                continue
+            red = t.func.attr if isinstance(t.func, ast.Attribute) else getattr(t.func, "id", "")
+            if red not in ("all", "any"):
+                continue
+            n += 1
+            loc = f"{fn.module.rel}:{node.lineno}"
+            label = norm_stmt(node)
+            if red == "all":
+                run.add("E6.K6", fn.short, label, PROVEN, "fast path requires the condition for every element", loc)
+            else:
+                run.add("E6.K6", fn.short, label, VIOLATION,
+                        f"`{label}` returns `{node.body[0].value.id}` unchanged as soon as ONE element satisfies the condition: in a collection that "
+                        f"mixes such elements with others the remaining elements are never processed", loc)
+    return n
